@@ -34,6 +34,18 @@ func init() {
 
 var errInjected = errors.New("injected read failure")
 
+// The failure of the underlying reader takes three shapes, chosen by the failing call number: a plain error, an error
+// that wraps io.EOF (a connection cut short: errors.Is(err, io.EOF) holds, yet it is a failure, not the end of the
+// document) and io.ErrUnexpectedEOF. A failure is a failure whatever it wraps.
+var injectedErrs = []error{errInjected, fmt.Errorf("read tcp 10.0.0.1:5432: %w", io.EOF), io.ErrUnexpectedEOF}
+
+func (s *schedReader) injected() error {
+	if s.failAt < 0 {
+		return errInjected
+	}
+	return injectedErrs[s.failAt%len(injectedErrs)]
+}
+
 // schedReader delivers data in the chunk sizes of sched (then everything), optionally reporting EOF together with
 // the last data, and optionally failing on call number failAt (0-based).
 type schedReader struct {
@@ -50,7 +62,7 @@ func (s *schedReader) Read(p []byte) (int, error) {
 	call := s.calls
 	s.calls++
 	if call == s.failAt && !(s.failWithData && s.pos < len(s.data)) {
-		return 0, errInjected
+		return 0, s.injected()
 	}
 	if s.pos >= len(s.data) {
 		return 0, io.EOF
@@ -73,7 +85,7 @@ func (s *schedReader) Read(p []byte) (int, error) {
 	copy(p, s.data[s.pos:s.pos+n])
 	s.pos += n
 	if call == s.failAt {
-		return n, errInjected
+		return n, s.injected()
 	}
 	if s.eofWithData && s.pos >= len(s.data) {
 		return n, io.EOF
@@ -476,6 +488,17 @@ func csvReadSection(r *tx.Rng, w *tx.W, size int, opt map[string]string) {
 			headers = headers[:0]
 			for c := 0; c < ncols; c++ {
 				headers = append(headers, "h"+strconv.Itoa(c))
+			}
+		}
+		// supplied headers with a missing name (the alias option applies to them as to names read from the document),
+		// also next to the name the alias generates
+		if r.P(1, 3) {
+			headers[r.Intn(len(headers))] = ""
+			if r.P(1, 3) {
+				headers[r.Intn(len(headers))] = "col"
+			}
+			if r.Bool() {
+				alias = "col"
 			}
 		}
 	}
